@@ -21,6 +21,7 @@ Updated 2026-05-06: Added Segment Type C support (RFC 9831).
 
 from __future__ import annotations
 
+from struct import error as struct_error
 from typing import Any
 
 from exabgp.bgp.message.update.attribute.tunnel_encap import TunnelEncap
@@ -49,6 +50,7 @@ from exabgp.bgp.message.update.attribute.tunnel_encap.sr_policy.segment_list imp
     SRv6EndpointBehavior,
     WeightSubSubTLV,
 )
+from exabgp.bgp.message.open.capability.negotiated import Negotiated
 from exabgp.bgp.message.update.nlri.sr_policy import SRPolicyNLRI
 from exabgp.protocol.family import AFI
 from exabgp.protocol.ip import IP
@@ -398,7 +400,11 @@ def sr_policy_route(tokeniser: Any, afi: AFI) -> tuple[SRPolicyNLRI, IP, TunnelE
     tokeniser.consume('endpoint')
     endpoint = tokeniser()
 
-    nlri = SRPolicyNLRI.create(afi=afi, distinguisher=distinguisher, color=color, endpoint=endpoint)
+    try:
+        nlri = SRPolicyNLRI.create(afi=afi, distinguisher=distinguisher, color=color, endpoint=endpoint)
+    except struct_error as exc:
+        # a negative or too large distinguisher / color: not an error Section.parse turns into a message
+        raise ValueError(f'sr-policy distinguisher or color out of range: {exc}') from None
 
     tokeniser.consume('next-hop')
     nexthop = IP.from_string(tokeniser())
@@ -408,5 +414,11 @@ def sr_policy_route(tokeniser: Any, afi: AFI) -> tuple[SRPolicyNLRI, IP, TunnelE
     tunnel_encap: TunnelEncap | None = None
     if subtlvs:
         tunnel_encap = TunnelEncap(tunnel_tlvs=[SRPolicyTunnel(subtlvs=subtlvs)])
+        try:
+            # the sub-TLVs keep the values as written and only pack them when the route is sent: a preference of
+            # -1, an algorithm of 256 or a mistyped address was accepted and every encoding of the route raised
+            tunnel_encap.pack_attribute(Negotiated.UNSET)
+        except (struct_error, OSError, OverflowError) as exc:
+            raise ValueError(f'sr-policy value which can not be encoded: {exc}') from None
 
     return nlri, nexthop, tunnel_encap
